@@ -435,8 +435,11 @@ type layer struct {
 
 func (l *layer) Info() Info {
 	var readTime time.Time
-	if l.r != nil {
-		readTime = l.r.LastOnDemandReadTime()
+	l.verifyMu.Lock()
+	r := l.r // set by Verify/SkipVerify, possibly by another user of this (cached) layer
+	l.verifyMu.Unlock()
+	if r != nil {
+		readTime = r.LastOnDemandReadTime()
 	}
 	return Info{
 		Digest:       l.desc.Digest,
